@@ -250,4 +250,50 @@ PROPS['C06'].update({
     'level_note': 'shortlex()/longlex() keys realising the positional orders are an assumed bitsets contract (bounded side uses labels whose order differs from position).',
 })
 
+LATINV = ['lindig.neighbors', 'lindig.lattice', 'lattices.__init__', 'lattices._init', 'lattices._make_mapping', 'lattices._shortlex',
+          'lattices._longlex', 'members.Pair.__init__', 'contexts._lattice', 'contexts.lattice', 'tools.lazyproperty.__get__',
+          'matrices.doubleprime', 'lemma.bits_subset'] + GALOIS
+CHAIN = ('Context.lattice -> Lattice.__init__ -> Context._lattice -> lindig.lattice -> lindig.neighbors -> doubleprime, then _init/_annotate: '
+         'every function on the chain is under contract')
+PROPS['C03'].update({
+    'units': LATINV + ['lattices.__len__', 'lattices.__iter__', 'members.Pair.__iter__'],
+    'level': 'proof',
+    'proved_part': 'the worklist yields exactly the extents of the context, each once (J1-J8, Lean lemmas L-LINDIG, cover_unique_gen, L-WORKLIST); the constructor '
+                   'turns the i-th yielded tuple into the i-th member; iter(lattice)/len(lattice) are the member list; ' + CHAIN,
+    'bounded_part': 'replay / counterexample finder; bitsets and heapq contracts',
+    'technique': 'contract-based deductive verification of the whole construction chain (loop invariants over ghost sets, heap abstraction), Lean-proved lattice lemmas as instances',
+    'level_text': 'All obligations of the construction chain are discharged for all contexts (unbounded); the bottom/top/all-crosses clauses follow from Cl(0) being an extent and LatInv.2.',
+    'level_note': 'Assumes bitsets contracts (atomic, shortlex keys realise a strict rank compatible with inclusion, frommembers), heapq, sorted, SMT<->Lean transcription; termination not proved.',
+})
+PROPS['C05'].update({
+    'units': LATINV + ['contexts.neighbors', 'contexts._neighbors'],
+    'level': 'proof',
+    'proved_part': 'lindig.neighbors = exactly the upper covers; the worklist records upper and lower covers per extent (converse by construction, tuple shared by mapping and heap); '
+                   'the constructor maps them to member objects, each cover once; Context.neighbors = covers of the generated concept; ' + CHAIN,
+    'bounded_part': 'replay / counterexample finder; bitsets and heapq contracts',
+    'technique': 'contract-based deductive verification of the Lindig step, the worklist and the constructor; Lean lemmas L-LINDIG / cover_unique_gen as instances',
+    'level_text': 'Stored neighbour links and Context.neighbors are proved to be exactly the covering relation for all contexts.',
+    'level_note': 'Assumes bitsets contracts (atomic, keys), heapq, sorted (permutation), SMT<->Lean transcription.',
+})
+PROPS['C06'].update({
+    'units': LATINV + ['lattices.infimum', 'lattices.supremum', 'lattices.atoms', 'lattices.__iter__'],
+    'level': 'proof',
+    'proved_part': 'generator order strictly increasing in the shortlex rank; index = position; dindex = position in the longlex-sorted order; upper_neighbors sorted by the shortlex key, '
+                   'lower_neighbors by the longlex key; infimum/supremum/atoms = first member / last member / upper neighbours of the first; ' + CHAIN,
+    'bounded_part': 'that the bitsets keys are the positional shortlex/longlex orders (labels chosen so that label order differs from position); replay',
+    'technique': 'contract-based deductive verification of order and ranks through the construction chain, relative to the key contract of bitsets',
+    'level_text': 'All order clauses are proved relative to the contract that shortlex()/longlex() keys realise the positional orders.',
+    'level_note': 'The key contract of bitsets (ties by position, not by label) is assumed and checked on the bounded side only.',
+})
+PROPS['C10'].update({
+    'units': ['lattices._annotate', 'lattices._init', 'lemma.bits_subset', 'contexts.intension', 'contexts.extension'] + GALOIS,
+    'level': 'proof',
+    'proved_part': '_annotate puts every object on exactly the member with extent Cl({o}) and every property on the member with extent Dn({p}), in context order, as tuples '
+                   '(class default () elsewhere), for every iteration order of the set `touched`; _init sets concept.atoms to the lattice atoms below or equal to it',
+    'bounded_part': 'the consequences "extent = union of object labels in the downset" etc. on enumerated lattices; replay',
+    'technique': 'contract-based deductive verification of the labelling loops (ghost membership + last-position abstraction, order-independence over the set iteration)',
+    'level_text': 'The reduced labelling and the atoms tuples are proved for all contexts relative to LatInv.1/4 and the contracts of intension/extension.',
+    'level_note': 'Label containers abstracted by membership and last appended position (a strictly increasing sequence is determined by its set).',
+})
+
 NOT_APPLICABLE = {}
